@@ -1,6 +1,6 @@
 (** C14: the run-time panic sites of the admission / governance-execution code that the model
     accounts for, in the vocabulary of the generated inventory Gen/PanicSites.v:
-    (function, kind, expression text, number of occurrences; kinds: assert, index, slice, panic, indexwrite, div, make, nilptr, nilfield = a selection x.f.g through a struct field inside logging code, which runs only at that log level, nilresult = a function with a pointer first result and an error last result that can return (nil, nil): literal, or a `var x *T` not assigned on every path to `return x, nil`; none at HEAD -- name.SetContractOwner assigns ownerState on every path, its caller ExecuteNameTx calls ownerState.PutState() unconditionally, so such a site there would be a Panic outcome), plus how each is accounted for:
+    (function, kind, expression text, number of occurrences; kinds: assert, index, slice, panic, indexwrite, div, make, nilptr, nilfield = a selection x.f.g through a struct field inside logging code, which runs only at that log level, mapfill = a store m[k] = v inside a loop with the conditions under which it is reached, nilresult = a function with a pointer first result and an error last result that can return (nil, nil): literal, or a `var x *T` not assigned on every path to `return x, nil`; none at HEAD -- name.SetContractOwner assigns ownerState on every path, its caller ExecuteNameTx calls ownerState.PutState() unconditionally, so such a site there would be a Panic outcome), plus how each is accounted for:
       "model"     explicit [Panic] outcome in Model.v, proved unreachable in Theorems.v
       "map"       Go map index (cannot panic)
       "reviewed"  argued by hand (reason in the comment), outside the theorems
@@ -12,6 +12,15 @@ Open Scope string_scope.
 
 Definition model_sites : list (string * string * string * nat * string) := [
   ("chain.adjustRv", "slice", "ret[:maxRetSize-4]", 1, "reviewed");  (* guarded by len(ret) > maxRetSize *)
+  ("system.VoteResult.AddVote", "mapfill", "voteResult.rmap[base58.Encode(key)] when always", 1, "model");  (* tally update in a loop over the new vote's candidates: add_keys in State.v *)
+  ("system.VoteResult.AddVote", "mapfill", "voteResult.rmap[base58.Encode(key)] when voteResult.rmap[base58.Encode(key)] == nil", 1, "model");  (* a new candidate gets a zero entry first: add_keys *)
+  ("system.VoteResult.AddVote", "mapfill", "voteResult.rmap[v] when always", 1, "model");  (* add_keys, DAO values *)
+  ("system.VoteResult.AddVote", "mapfill", "voteResult.rmap[v] when voteResult.rmap[v] == nil", 1, "model");  (* add_keys *)
+  ("system.VoteResult.SubVote", "mapfill", "voteResult.rmap[pkey] when always", 1, "model");  (* sub_keys: the entry is dereferenced WITHOUT a nil check (explicit Panic outcome "rmap" in State.v); unreachable because every key of a stored vote is a key of the loaded tally (key invariant KInv, TheoremsKeys.v) -- which needs loadVoteResult to load EVERY stored entry, zero amounts included: see the two loadVoteResult rows *)
+  ("system.VoteResult.SubVote", "mapfill", "voteResult.rmap[v] when always", 1, "model");  (* as above, DAO values *)
+  ("system.loadVoteResult", "mapfill", "voteResult.rmap[base58.Encode(v.Candidate)] when not (voteResult.ex)", 1, "model");  (* load_entries: every stored entry is loaded, no skip condition (a skipped entry makes SubVote dereference nil for a voter whose previous vote names it) *)
+  ("system.loadVoteResult", "mapfill", "voteResult.rmap[string(v.Candidate)] when voteResult.ex", 1, "model");  (* load_entries: every stored entry is loaded, entries whose amount is zero included *)
+  ("system.vpr.apply", "mapfill", "updRows[i] when delta.cmp(zeroValue) != 0 && s != nil && !exist", 1, "reviewed");  (* in-memory voting power rank (vprt.go), outside the model *)
   ("system.newVprCmd", "nilfield", "ctx.BlockInfo.ForkVersion", 1, "reviewed");  (* debug log line; ctx.BlockInfo is dereferenced unconditionally by the next statement (ForkVersion < 2) and set by newSystemContext from the block header info *)
   ("system.voteCmd.updateVoteResult", "nilfield", "c.Vote.GetAmountBigInt", 2, "reviewed");  (* debug log line; c.Vote is the record returned by getVote (never nil: an empty types.Vote when there is none) and was already used by c.sub(c.Vote).  c.Proposal is nil for BP votes (model: the proposal of a voteBP command is None): a selection through it in logging code would be a Panic outcome at debug level and must not appear here *)
   ("chain.executeTx", "nilptr", "bs.BpReward.Add(&bs.BpReward, txFee)", 1, "model");  (* explicit Panic outcome of exec_gov for a type without a case in the dispatch; unreachable by tx_validate_type; the case lists are generated (C14_dispatch_complete) *)
